@@ -65,7 +65,7 @@ def main(ctx):
     ctx.axioms_used.discard("Axioms")
     ctx.obligations = [(n, ok, d.replace("axioms: Axioms,", "axioms: ")) for (n, ok, d) in ctx.obligations]
     bindir = ctx.harness(GROUP, profile="release", bins=["c31"])
-    cases = ctx.gen_exec(bindir, "c31", ctx.n(3000, 30000), inputs=ctx.replay_inputs())
+    cases = ctx.gen_exec(bindir, "c31", ctx.n(3000, 12000), inputs=ctx.replay_inputs())
     ctx.correspond("filters", GROUP, REQ, cases, show="show",
                    fn_name="Filters.ModelFilters.run (TopK/TopP/Temperature/TokenIdFilter/Sort/Chain)")
     if failed and not ctx.violations:
